@@ -365,6 +365,7 @@ func (l *Lexer) readString() (string, int, int, int) {
 			if l.skipNewlineWhitespace() {
 				l.skipWhitespace()
 				sb.WriteRune(' ')
+				continue
 			}
 			sb.WriteRune(l.ch)
 			l.readChar()
